@@ -26,12 +26,21 @@ void CDNS::Timestamp::add_time_offset(int64_t offset, uint64_t ticks_per_second)
     if (ticks_per_second == 0)
         throw std::runtime_error("Ticks per second resolution is zero!");
 
-    int64_t ticks = (m_secs * ticks_per_second) + m_ticks;
+    uint64_t ticks = (m_secs * ticks_per_second) + m_ticks;
 
-    if (-1 * offset > ticks)
-        throw std::runtime_error("Adding offset to Timestamp would create invalid Timestamp!");
+    if (offset < 0) {
+        // Magnitude of the negative offset, computed without signed overflow (also for INT64_MIN)
+        uint64_t back = static_cast<uint64_t>(-(offset + 1)) + 1;
 
-    ticks += offset;
+        if (back > ticks)
+            throw std::runtime_error("Adding offset to Timestamp would create invalid Timestamp!");
+
+        ticks -= back;
+    }
+    else {
+        ticks += static_cast<uint64_t>(offset);
+    }
+
     m_secs = ticks / ticks_per_second;
     m_ticks = ticks % ticks_per_second;
 }
